@@ -128,6 +128,9 @@ def checkFactor (op : String) (args res : List String) : Verdict :=
         | none => .skip "resultant size cap"
         | some cs => if cs.all id then .ok s!"fac/msqf/{facs.length}" else .viol "fac/msqf/coprime" "two factors share a common factor"
     | _, _, _ => .skip "parse"
+  | "layout", [st], [o] =>
+    if o = "1" then .ok s!"fac/layout/{if st = "1" then "stale-input" else "plain"}"
+    else .viol "fac/layout" "a returned factor is not laid out in the current variable order"
   | _, _, _ => .skip s!"unknown fac op {op}"
 
 end LP.Driver
